@@ -71,7 +71,7 @@ const OPS: [&str; 19] = [
 const W: [usize; 19] = [4, 1, 3, 8, 8, 8, 5, 5, 3, 3, 3, 9, 3, 3, 3, 3, 2, 2, 7];
 
 fn numv(x: f64) -> Value {
-    if x.is_finite() && x.fract() == 0.0 && x.abs() < 2e9 { json!(x as i64) } else { json!(format!("{:e}", x)) }
+    num(x)
 }
 
 pub fn record(args: &Args) {
